@@ -124,7 +124,113 @@ func buildPool(w *schema.Type) []*poolItem {
 	return pool
 }
 
+// complexKeys: ComplexKeyEquals compares the key parts only ($params are not part of the key's
+// identity) and ComputeComplexKeyHash must be consistent with it.
+func complexKeys(a *hcli.Args, rep *report.Report, u *schema.Universe) {
+	s := rep.S("complex-keys")
+	s.Bounds = "complex key CKey: key parts over the reduced deviation<=1 alphabet of the key record x $params in {absent, base, rich, each single field}; every ordered pair: ComplexKeyEquals iff the key parts are structurally equal, ComplexKeyEquals implies equal ComputeComplexKeyHash, full Equals / ComputeHash agree with structural equality including $params"
+	ck := u.ByName["CKey"]
+	if ck == nil || Reg["CKey"] == nil || a.Shard != 0 {
+		return
+	}
+	parT := ck.ComplexKey.Params
+	params := []*schema.V{nil, schema.Base(parT), schema.Rich(parT)}
+	for _, f := range parT.Fields {
+		params = append(params, schema.Base(parT).With(f.Name, schema.Rich(f.Type)))
+	}
+	type item struct {
+		v    *schema.V
+		key  *schema.V
+		ptr  reflect.Value
+		desc string
+	}
+	var pool []item
+	for _, k := range schema.Alphabet(ck.ComplexKey.Key, true) {
+		if k.HasNaN() {
+			continue
+		}
+		for pi, p := range params {
+			v := &schema.V{T: ck, Fields: map[string]*schema.V{}}
+			for n, fv := range k.Fields {
+				v.Fields[n] = fv
+			}
+			if p != nil {
+				v.Fields["$params"] = p
+			}
+			ptr, err := goValue(v)
+			if err != nil {
+				report.Internal("bridge: complex key: %v", err)
+			}
+			pool = append(pool, item{v, k, ptr, fmt.Sprintf("%s params#%d", leaf(k.Dev), pi)})
+		}
+	}
+	s.States = int64(len(pool))
+	call := func(p reflect.Value, name string, args ...reflect.Value) (out reflect.Value, err error) {
+		defer func() {
+			if r := recover(); r != nil {
+				err = fmt.Errorf("%s panicked: %v", name, r)
+			}
+		}()
+		m := p.MethodByName(name)
+		if !m.IsValid() {
+			return out, fmt.Errorf("%s has no %s", p.Type(), name)
+		}
+		return m.Call(args)[0], nil
+	}
+	for _, p := range pool {
+		for _, q := range pool {
+			s.Evaluations++
+			s.Transitions++
+			s.Traces++
+			wantKey := schema.Equal(p.key, q.key)
+			got, err := call(p.ptr, "ComplexKeyEquals", q.ptr)
+			if err != nil {
+				rep.Fail(fmt.Sprintf("%s eq complex-key panic", a.Gen), err.Error(), nil)
+				continue
+			}
+			if got.Bool() != wantKey {
+				rep.Fail(fmt.Sprintf("%s eq complex-key ComplexKeyEquals-wrong want=%v", a.Gen, wantKey), fmt.Sprintf("ComplexKeyEquals(%s, %s) = %v, the key parts are equal: %v", p.v, q.v, got.Bool(), wantKey), nil)
+				s.Class("fail:key-equals")
+				continue
+			}
+			hp, e1 := call(p.ptr, "ComputeComplexKeyHash")
+			hq, e2 := call(q.ptr, "ComputeComplexKeyHash")
+			if e1 != nil || e2 != nil {
+				rep.Fail(fmt.Sprintf("%s eq complex-key hash-panic", a.Gen), fmt.Sprint(e1, e2), nil)
+				continue
+			}
+			if wantKey && fmt.Sprint(hp.Interface()) != fmt.Sprint(hq.Interface()) {
+				rep.Fail(fmt.Sprintf("%s eq complex-key equal-keys-different-key-hash", a.Gen), fmt.Sprintf("%s and %s are ComplexKeyEquals but ComputeComplexKeyHash gives %v and %v", p.v, q.v, hp.Interface(), hq.Interface()), nil)
+				s.Class("fail:key-hash")
+				continue
+			}
+			// the full value (key + $params)
+			wantFull := schema.Equal(p.v, q.v)
+			gotFull, err := callEquals(p.ptr, q.ptr)
+			if err != nil {
+				rep.Fail(fmt.Sprintf("%s eq complex-key panic", a.Gen), err.Error(), nil)
+				continue
+			}
+			if gotFull != wantFull {
+				rep.Fail(fmt.Sprintf("%s eq complex-key Equals-wrong want=%v", a.Gen, wantFull), fmt.Sprintf("Equals(%s, %s) = %v, structural equality (with $params) says %v", p.v, q.v, gotFull, wantFull), nil)
+				s.Class("fail:full-equals")
+				continue
+			}
+			if wantFull {
+				h1, _ := callHash(p.ptr)
+				h2, _ := callHash(q.ptr)
+				if h1 != h2 {
+					rep.Fail(fmt.Sprintf("%s eq complex-key equal-different-hash", a.Gen), fmt.Sprintf("%s and %s are Equal but hash to %s and %s", p.v, q.v, h1, h2), nil)
+					continue
+				}
+			}
+			s.Class(fmt.Sprintf("ok:key-equal=%v:full-equal=%v", wantKey, wantFull))
+		}
+	}
+}
+
 func partC10(a *hcli.Args, rep *report.Report, univName string, u *schema.Universe) {
+	complexKeys(a, rep, u)
 	s := rep.S("equals-hash-pairs")
 	s.Bounds = fmt.Sprintf("universe=%s: per wrapper, pool = reduced deviation<=1 alphabet + copies + map insertion orders + nil/empty swaps + round-tripped copies; all ordered pairs", univName)
 	digest := sha256.New()
